@@ -7,6 +7,29 @@ BASE_NOTE = ("Trusted: Coq 8.16.1 kernel (vm_compute for finite sweeps, no nativ
              "(Print Assumptions per theorem is checked on every run), tools/py2v.py translator, ExtrOcamlBasic extraction + "
              "ocaml/driver.ml, the Python correspondence harness; CPython/numpy behaviour is modelled, not verified.")
 CLAIMED = {
+ "C01": dict(
+   text="Theorem read_write_roundtrip over the Gallina file model: for every version 1.1-1.4, any record length, ANY record bytes, any count "
+        "(0 and 1 included), any well-formed VLR/EVLR lists, reading the written file returns the records byte for byte, the VLRs, the EVLRs, the "
+        "count and every header field; rewrite_idempotent (writing what was read gives the same file). Layouts of the model are regenerated "
+        "from write_to/read_from each run. Correspondence: bytes of LasData.write vs file_of, laspy.read vs read_file, over destinations "
+        "BytesIO/stream/path; oracle: round trip, idempotence, deep non-mutation snapshot (incl. rescale-on-write).",
+   design="5/C01", technique="Coq proof: composition of header/VLR codec round trips with list surgery on the point block; extracted model vs laspy bytes",
+   note=BASE_NOTE + " numpy's packed dtype image = concatenation of fields is checked, not proved; the caller-object immutability is an implementation-side oracle."),
+ "C07": dict(
+   text="Theorems: header codec round trip for every field in its domain (dec_enc_header), exact header size 227/227/235/375 + extra bytes, "
+        "offset = size + VLR bytes + padding, written length = offset, in-place rewrite keeps the offset or is refused, fixed-width strings of every "
+        "length 0..32, day-of-year calendar round trip for every date 0001-01-01..9999-12-31 (finite sweep over leap flag x month x day lifted), and an "
+        "invariant over arbitrary histories of constructor/setter/create/convert/open-writer calls: the (version, format) pair is always compatible. "
+        "Field sequences are extracted from write_to/read_from and tables dumped from the running module on every run.",
+   design="5/C07", technique="Coq proof: generic layout codec lemma + per-version computation; invariant by induction over API histories; finite calendar sweep",
+   note=BASE_NOTE + " struct.pack('<d') and datetime are modelled (bit patterns / proleptic Gregorian day-of-year), compared with CPython on every run."),
+ "C09": dict(
+   text="Theorems over masks dumped from the running COMPOSED_FIELDS and the translated least_significant_bit_set: complete vm_compute sweep of every "
+        "(format, sub-field) x 256 prior bytes x every in-range value (read-back, byte range, bits outside the mask, every sibling field) lifted to forall; "
+        "unbounded refusal of too-large and negative values; array-level theorems by induction over arbitrary selections with repetitions "
+        "(untouched, isolated, last value reads back). Correspondence: exhaustive per element through real PackedPointRecords plus random index expressions.",
+   design="5/C09", technique="Coq proof: exhaustive vm_compute sweep lifted by forallb lemmas + list induction; exhaustive correspondence",
+   note=BASE_NOTE + " numpy's resolution of an index expression to positions is modelled (the model receives positions)."),
  "C03": dict(
    text="Theorems over the Gallina file model (Model/Las.v): the statistics the writer accumulates are exactly count, per-return histogram "
         "and scaled integer extrema of the whole point sequence (induction over records/chunks, grow_app), zero extrema for an empty cloud, "
